@@ -40,6 +40,9 @@ Definition binview_beq (a b : binview) : bool :=
   match a, b with
   | BErr, BErr | BOther, BOther => true
   | BDirs a1 a2 a3, BDirs b1 b2 b3 => beq a1 b1 && beq a2 b2 && beq a3 b3
+  (* a run that loaded the configuration without showing all three names agrees with any loaded
+     configuration -- and with nothing else: not with a configuration error *)
+  | BRunOK, BRunOK | BRunOK, BDirs _ _ _ | BDirs _ _ _, BRunOK => true
   | _, _ => false
   end.
 
